@@ -8,17 +8,17 @@ ROOT = os.path.dirname(os.path.dirname(os.path.abspath(__file__)))
 CHECKS = {
  "C01": ("model_checking",
          "bounded-exhaustive explicit-state trie search over byte/fragment alphabets on the real code (fresh instance per state) + exhaustive corpus cuts and repetition families",
-         "Every string over the SQL byte alphabet (56 symbols, <=4 quick / <=5 thorough), the fragment alphabet (61 construct openers/closers, <=3/<=4, with scan-offset trace in all six modes and every context evaluated), the token-class alphabet (51, <=4/<=5; 16-symbol core to 6/7 tokens), every cut of every repository fixture and every opener+unit^k+closer repetition is run through the real IsSQLi; a panic, fatal error, hang, out-of-range scan offset or a tokenizer that does not finish in len+2 steps is a violation. Totality is a forall-inputs claim; a complete enumeration of small well-chosen alphabets is the strongest statement this family can make about it.",
+         "Every string over the SQL byte alphabet (68 symbols, <=4 quick / <=5 thorough), the fragment alphabet (65 construct openers/closers, <=3/<=4, with scan-offset trace in all six modes and every context evaluated), the token-class alphabet (53, <=4/<=5; 16-symbol core to 6/7 tokens), every cut of every repository fixture and every opener+unit^k+closer repetition is run through the real IsSQLi; a panic, fatal error, hang, out-of-range scan offset or a tokenizer that does not finish in len+2 steps is a violation. Totality is a forall-inputs claim; a complete enumeration of small well-chosen alphabets is the strongest statement this family can make about it.",
          "Nothing is claimed beyond the enumerated alphabets and levels (evidence lists the level completed). Trusted: the Go runtime's bounds checks turn every bad index into a panic; hooks in verif_hooks.go are read-only wrappers.",
          "4 C01"),
  "C02": ("model_checking",
          "bounded-exhaustive explicit-state trie search over HTML byte/fragment alphabets on the real code in all five contexts + exhaustive corpus cuts and MB-scale repetition families in isolated worker processes",
-         "Every string over the HTML byte alphabet (29 symbols, <=5; 20-symbol core to 6-7 in thorough) and the fragment alphabet (43 markup openers/terminators, <=4/<=5, token trace in all five contexts), every cut of every fixture, and opener+unit^k+closer repetitions up to 1 MB (8 MB thorough) run through the real IsXSS; panic, fatal error (stack exhaustion), hang or out-of-range offset is a violation.",
+         "Every string over the HTML byte alphabet (39 symbols, <=4/<=5; 20-symbol core to 6-7 in thorough) and the fragment alphabet (markup openers/terminators, <=4/<=5, token trace in all five contexts), every cut of every fixture, and opener+unit^k+closer repetitions up to 1 MB (8 MB thorough) run through the real IsXSS; panic, fatal error (stack exhaustion), hang or out-of-range offset is a violation.",
          "Nothing is claimed beyond the enumerated alphabets and levels. Stack exhaustion is observed as a fatal error of an isolated worker, confirmed by re-running the journalled case alone three times.",
          "4 C02"),
  "C04": ("model_checking",
          "exhaustive enumeration of a finite calibrated vector grammar (complete product, no sampling) on the public API",
-         "The complete product of the vector grammar - every shipped and every pinned-baseline black tag, event handler, black/style attribute, URL attribute x scheme x scheme obfuscation, indirect attribute, doctype/entity/import/xml/IE-conditional/back-tick markup, times every breakout prefix of the five contexts, times lower/UPPER/alternating/every single-letter flip and a NUL at every interior name position (about 12 M members in thorough, 8.6 M in quick) - is run through IsXSS and every member must be reported. The grammar was calibrated once on the repaired pinned tree (all members detected) and is fixed in c04.go.",
+         "The complete product of the vector grammar - every shipped and every pinned-baseline black tag, event handler, black/style attribute, URL attribute x scheme x scheme obfuscation, indirect attribute, doctype/entity/import/xml/IE-conditional/back-tick markup, times every breakout prefix of the five contexts, times lower/UPPER/alternating/every single-letter flip and a NUL at every interior name position (about 10 M members in quick, more in thorough) - is run through IsXSS and every member must be reported. The grammar was calibrated once on the repaired pinned tree (all members detected) and is fixed in c04.go.",
          "The guarantee is exactly the enumerated grammar; list entries come from the current tables and from a pinned baseline copy so removals are misses and additions are covered.",
          "4 C04"),
  "C07": ("model_checking",
@@ -53,7 +53,7 @@ CHECKS = {
          "4 C19"),
  "C03": ("model_checking",
          "exhaustive enumeration of a finite calibrated attack grammar (complete product of productions x separator choices x case assignments) on the public API",
-         "Every member of the committed grammar (5220 (family, payload, prefix, tail) productions over 5 attack families, 14 context prefixes, 7 tails; each expanded by 9 separators uniformly and one position at a time, lower/UPPER/alternating case and every single-letter flip: about 590 k strings) is run through IsSQLi and must be reported. The production list was calibrated once on the repaired pinned tree (a production is in the grammar only if every variant was detected) and is fixed in c03_grammar.json.",
+         "Every member of the committed grammar (7659 (family, payload, prefix, tail) productions over the attack families incl. multi-word prefixes and pseudo-function payloads, context prefixes and tails; each expanded by its calibrated separator set uniformly and one position at a time, lower/UPPER/alternating case and every single-letter flip: about 1.09 M strings) is run through IsSQLi and must be reported. The production list was calibrated once on the repaired pinned tree (a production is in the grammar only if every variant was detected) and is fixed in c03_grammar.json.",
          "The guarantee is exactly the enumerated grammar; the check never re-calibrates at run time.",
          "4 C03"),
  "C06": ("model_checking",
@@ -98,7 +98,7 @@ CHECKS = {
          "4 C20"),
  "C05": ("model_checking",
          "explicit-state closure over call histories (state = digest of all package-level state, fixpoint) + stateless schedule exploration of the auto-instrumented implementation under a cooperative scheduler with iterative preemption bounding and a happens-before race monitor",
-         "E-HIST: from every reachable package state (digest of everything reachable from every package-level variable incl. pooled objects) each of 72 colliding IsSQLi/IsXSS operations (incl. same-fingerprint / different-verdict pairs and 70 KB inputs) is applied to the real code and compared with the fresh-process reference and the reference models; on the unchanged tree the closure is one state, which by induction covers every history. E-SCHED: every interleaving of 2 concurrent calls (78 input pairs; 2x2 calls; 3 threads in thorough) within the preemption bound; long linear histories (700 / 6000 calls) and pumped histories A.N^k.B with k on the 8-bit wrap boundaries; scheduling points inserted by vinstr at every package-level variable access, sync/atomic/pool operation and (per config) function entry / loop iteration, checked for result = sequential reference, data races (vector clocks), deadlock, panics; every failing schedule is replayed and must reproduce. A free-running `go test -race` pass over the same bodies is auxiliary.",
+         "E-HIST: from every reachable package state (digest of everything reachable from every package-level variable incl. pooled objects) each of 85 colliding IsSQLi/IsXSS operations (incl. same-fingerprint / different-verdict pairs and 70 KB inputs) is applied to the real code and compared with the fresh-process reference and the reference models; on the unchanged tree the closure is one state, which by induction covers every history. E-SCHED: every interleaving of 2 concurrent calls (136 input pairs; 2x2 calls; 3 threads in thorough) within the preemption bound; long linear histories (700 / 6000 calls) and pumped histories A.N^k.B with k on the 8-bit wrap boundaries; scheduling points inserted by vinstr at every package-level variable access, sync/atomic/pool operation and (per config) function entry / loop iteration, checked for result = sequential reference, data races (vector clocks), deadlock, panics; every failing schedule is replayed and must reproduce. A free-running `go test -race` pass over the same bodies is auxiliary.",
          "Sequentially consistent, preemption-bounded (bound 2; statement-level configs bound 1-2 in thorough, caps reported). State reachable only through closures/unsafe is outside the digest. Instrumentation is generated from /repo's working tree at check time.",
          "4 C05"),
  "C09": ("model_checking",
@@ -111,6 +111,8 @@ CHECKS = {
 NOT_YET = {
 }
 
+PHASES = json.load(open(os.path.join(ROOT, "tools", "phases.json")))
+
 def main():
     props = [json.loads(l) for l in open(os.path.join(ROOT, "properties.jsonl"))]
     checks = []
@@ -119,6 +121,8 @@ def main():
         pid = p["id"]
         if pid in CHECKS:
             cat, tech, text, note, ref = CHECKS[pid]
+            text += " Explored spaces as built (from the engine's phase table, `vcheck -list -json`): " + "; ".join(
+                f"[{ph['name']}{' (thorough only)' if ph.get('thorough_only') else ''}] {ph['space']}" for ph in PHASES[pid]) + "."
             checks.append({
                 "property_id": pid,
                 "quick_cmd": f"bin/check {pid} quick",
